@@ -2301,9 +2301,9 @@ class TagCollection(list):
 
     def __add__(self, others):
         # Maybe this can be optimized by changing self.uids to a dictionary, and using appending the set difference
-        hasTag = self._hasTag
-
         ret = TagCollection(self[:])
+        hasTag = ret._hasTag
+
         for other in others:
             if hasTag(other) is False:
                 ret.append(other)
@@ -2321,9 +2321,8 @@ class TagCollection(list):
 
 
     def __sub__(self, others):
-        hasTag = self._hasTag
-
         ret = TagCollection(self[:])
+        hasTag = ret._hasTag
 
         for other in others:
             if hasTag(other) is True:
